@@ -467,7 +467,7 @@ func (d *V2) Apply(op model.Op) (res model.Result) {
 		return r
 	case "Get":
 		out, err := c.GetItem(ctx, &dynamodb.GetItemInput{TableName: aws.String(op.Table), Key: ToV2Item(op.Key),
-			ProjectionExpression: strPtrOrNil(op.Projection), ExpressionAttributeNames: v2Names(op.Names)})
+			ProjectionExpression: strPtrOrNil(op.Projection), ExpressionAttributeNames: v2Names(op.Names), ConsistentRead: boolPtrOrNil(op.Consistent)})
 		if err != nil {
 			return fail(err)
 		}
@@ -476,7 +476,7 @@ func (d *V2) Apply(op model.Op) (res model.Result) {
 		in := &dynamodb.QueryInput{TableName: aws.String(op.Table), IndexName: strPtrOrNil(op.Index),
 			KeyConditionExpression: strPtrOrNil(op.KeyCond), FilterExpression: strPtrOrNil(op.Filter),
 			ExpressionAttributeNames: v2Names(op.Names), ExpressionAttributeValues: ToV2Item(op.Values),
-			ExclusiveStartKey: ToV2Item(op.StartKey)}
+			ExclusiveStartKey: ToV2Item(op.StartKey), ConsistentRead: boolPtrOrNil(op.Consistent)}
 		if op.Limit > 0 {
 			in.Limit = aws.Int32(int32(op.Limit))
 		}
@@ -491,7 +491,7 @@ func (d *V2) Apply(op model.Op) (res model.Result) {
 	case "Scan":
 		in := &dynamodb.ScanInput{TableName: aws.String(op.Table), IndexName: strPtrOrNil(op.Index),
 			FilterExpression: strPtrOrNil(op.Filter), ExpressionAttributeNames: v2Names(op.Names), ExpressionAttributeValues: ToV2Item(op.Values),
-			ExclusiveStartKey: ToV2Item(op.StartKey)}
+			ExclusiveStartKey: ToV2Item(op.StartKey), ConsistentRead: boolPtrOrNil(op.Consistent)}
 		if op.Limit > 0 {
 			in.Limit = aws.Int32(int32(op.Limit))
 		}
@@ -515,6 +515,10 @@ func (d *V2) Apply(op model.Op) (res model.Result) {
 			}
 		}
 		out, err := c.BatchWriteItem(ctx, in)
+		if op.Repeat {
+			// the same request object again (puts and deletes are idempotent)
+			out, err = c.BatchWriteItem(ctx, in)
+		}
 		if err != nil {
 			return fail(err)
 		}
@@ -548,9 +552,14 @@ func (d *V2) Apply(op model.Op) (res model.Result) {
 			for _, k := range tb.Keys {
 				ka.Keys = append(ka.Keys, ToV2Item(k))
 			}
+			ka.ConsistentRead = boolPtrOrNil(op.Consistent)
 			in.RequestItems[tb.Table] = ka
 		}
 		out, err := c.BatchGetItem(ctx, in)
+		if op.Repeat {
+			// the same request object again, as a retry loop would send it
+			out, err = c.BatchGetItem(ctx, in)
+		}
 		if err != nil {
 			return fail(err)
 		}
